@@ -5,6 +5,7 @@ from .. import casadi_model as cm
 from ..decide import decide, decide_mat, EQUAL, DIFFERENT, UNKNOWN
 from ..engine import sym_atoms_of, first_diff, short
 from ..poly import Poly, CFG
+from fractions import Fraction
 
 GROUPS12 = ["SO2", "SE2", "R2", "R3", "SO3Quat", "SO3Mrp", "SO3Dcm", "SO3EulerB321", "SE3Quat", "SE3Mrp", "SE23Quat", "SE23Mrp"]
 ALGEBRAS7 = ["so2", "se2", "r2", "r3", "so3", "se3", "se23"]
